@@ -119,6 +119,8 @@ def main(tier):
     import bounds
     rep.attempt(bounds.check_src_cover, rep, 22)
     rep.attempt(bounds.check, rep, {'raid_pq_gen', 'raid_pq_check'}, 'RAID', 5)
+    import guardloop
+    rep.attempt(guardloop.check, rep, 'RAID', r'^raid/', 5)
     import horner
     rep.attempt(horner.check, rep, 68)
     import raidlayout
